@@ -685,6 +685,8 @@ def m_str_mod(eng, st, a, b, node):
     """'a%i' % j  and friends: an abstract label, injective in its arguments."""
     fmt = a.s
     items = b.items if isinstance(b, VTuple) else [b]
+    if any(isinstance(i, VStr) for i in items) and any(isinstance(i, VLabel) for i in items):
+        items = [VLabel(eng.label_of(i.s)) if isinstance(i, VStr) else i for i in items]
     if all(isinstance(i, VInt) and z3.is_int_value(i.t) for i in items) or all(isinstance(i, VStr) for i in items):
         vals = tuple(i.t.as_long() if isinstance(i, VInt) else i.s for i in items)
         return VStr(fmt % vals)
@@ -1066,6 +1068,30 @@ def m_combinations(eng, st, args, kwargs, node):
     return st.alloc(HSeq(ncomb, comb))
 
 
+def m_map(eng, st, args, kwargs, node):
+    """map(lambda a: ..., (x, y, ...)) over a tuple of fixed length"""
+    f, seq = args[0], args[1]
+    if not (isinstance(f, VConc) and f.name == "lambda" and isinstance(seq, VTuple)):
+        raise Unsupported("map form (line %d)" % node.lineno)
+    lam, lenv = f.obj
+    out = []
+    for item in seq.items:
+        s2 = st.fork()
+        s2.env = dict(lenv)
+        s2.env[lam.args.args[0].arg] = item
+        n0 = len(s2.pc)
+        out.append(eng.ev(lam.body, s2))
+        st.heap.update({a: o for a, o in s2.heap.items() if a not in st.heap})
+        st.pc.extend(s2.pc[n0:])            # facts assumed about the results of the calls in the lambda body (callee postconditions)
+    return VTuple(out)
+
+
+def m_tuple(eng, st, args, kwargs, node):
+    if args and isinstance(args[0], VTuple):
+        return args[0]
+    raise Unsupported("tuple(%r)" % (args,))
+
+
 def m_replace(eng, st, recv, args, kwargs, node):
     """s.replace(a, b) on an abstract string: an abstract string determined by the three arguments"""
     if isinstance(recv, VStr) and all(isinstance(a, VStr) for a in args):
@@ -1081,6 +1107,8 @@ def m_isdigit(eng, st, recv, args, kwargs, node):
         return VBool(ISINT(recv.obj[0].t))
     if isinstance(recv, VStr):
         return VBool(recv.s.isdigit())
+    if isinstance(recv, VLabel):
+        return VBool(z3.Function("str.isdigit", Label, z3.BoolSort())(recv.t))
     raise Unsupported("isdigit on %r" % (recv,))
 
 
@@ -1516,6 +1544,8 @@ def install(eng):
     M["sympy.symbols"] = m_opaque_fn
     M["np.arange"] = m_np_arange
     M["builtin:reversed"] = m_reversed
+    M["builtin:map"] = m_map
+    M["builtin:tuple"] = m_tuple
     M["itertools.combinations"] = m_combinations
     M["generator.is_float"] = m_is_float
     M["is_float"] = m_is_float
